@@ -660,7 +660,10 @@ func handleQueryCustom(app *BaseApp, path []string, req abci.RequestQuery) (res 
 	// cache wrap the commit-multistore for safety
 	ctx := sdk.NewContext(
 		newMS, app.checkState.ctx.BlockHeader(), true, app.logger,
-	).WithBlockStore(app.checkState.ctx.BlockStore()).WithAppVersion(app.appVersion)
+	).WithBlockStore(app.checkState.ctx.BlockStore()).WithAppVersion(app.appVersion).
+		// a query reads a (possibly historical) side view of the state: it must neither consult nor populate the
+		// keeper caches that block execution reads, or a query changes the outcome of later blocks
+		SetPrevCtx(true)
 
 	// Passes the rest of the path as an argument to the querier.
 	//
